@@ -34,8 +34,25 @@ def _load(prop: str):
     return importlib.import_module(f"pbt.props.{prop.lower()}")
 
 
+def _die_with_parent():
+    """shard processes must not outlive a killed parent (they would keep spinning on a hung case)"""
+    import threading
+    import time
+
+    ppid = os.getppid()
+
+    def watch():
+        while True:
+            time.sleep(5)
+            if os.getppid() != ppid:
+                os._exit(3)
+
+    threading.Thread(target=watch, daemon=True).start()
+
+
 def _worker(args):
     prop, tier, seed, shard, nshards, scale = args
+    _die_with_parent()
     try:
         import warnings
 
